@@ -158,19 +158,55 @@ Proof.
   intros Hnd Hin. apply NoDup_count_occ' with (decA := Nat.eq_dec) in Hin; assumption.
 Qed.
 
-(* whatever order the map iteration produces, a broadcast reaches every routee of the map exactly
-   once, and nobody else *)
+Lemma filter_perm {A} (f : A -> bool) l l' : Permutation l l' -> Permutation (filter f l) (filter f l').
+Proof.
+  induction 1; simpl.
+  - constructor.
+  - destruct (f x); [constructor|]; assumption.
+  - destruct (f x); destruct (f y); try reflexivity. apply perm_swap.
+  - etransitivity; eassumption.
+Qed.
+
+Lemma nodup_map_fst_filter (f : nat * bool -> bool) m : NoDup (map fst m) -> NoDup (map fst (filter f m)).
+Proof.
+  induction m as [|e m IH]; simpl; intros H; [constructor|]. inversion H as [|? ? Hnin Hnd]; subst.
+  destruct (f e); [|apply IH; assumption]. simpl. constructor; [|apply IH; assumption].
+  intros Hc. apply Hnin. apply in_map_iff in Hc. destruct Hc as [e' [E Hin]]. apply filter_In in Hin.
+  apply in_map_iff. exists e'. tauto.
+Qed.
+
+(* the routees handed out are exactly the running routees of the map *)
+Lemma available_running (m order : list (nat * bool)) r : Permutation order m ->
+  In r (fst (available order)) <-> In (r, true) m.
+Proof.
+  intros Hp. unfold available. cbn [fst]. rewrite in_map_iff. split.
+  - intros [[r' b] [E Hin]]. simpl in E. subst r'. apply filter_In in Hin. destruct Hin as [Hin Hb]. simpl in Hb. subst b.
+    eapply Permutation_in; eauto.
+  - intros Hin. exists (r, true). split; [reflexivity|]. apply filter_In. split; [|reflexivity].
+    eapply Permutation_in; [apply Permutation_sym; exact Hp|assumption].
+Qed.
+
+(* whatever order the map iteration produces, a broadcast reaches every running routee of the map
+   exactly once, and nobody else (in particular no routee that has stopped) *)
 Lemma fanout_over_map (m order : list (nat * bool)) r :
   NoDup (map fst m) -> Permutation order m ->
-  count_occ Nat.eq_dec (fanout (fst (available order))) r = if in_dec Nat.eq_dec r (map fst m) then 1%nat else 0%nat.
+  count_occ Nat.eq_dec (fanout (fst (available order))) r =
+    if in_dec Nat.eq_dec r (map fst (filter (fun e => snd e) m)) then 1%nat else 0%nat.
 Proof.
   intros Hnd Hp. rewrite fanout_each_once. unfold available. cbn [fst].
-  assert (Hp' : Permutation (map fst order) (map fst m)) by (apply Permutation_map; assumption).
+  assert (Hp' : Permutation (map fst (filter (fun e => snd e) order)) (map fst (filter (fun e => snd e) m)))
+    by (apply Permutation_map; apply filter_perm; assumption).
   rewrite (Permutation_count_occ Nat.eq_dec) in Hp'. rewrite Hp'.
-  destruct (in_dec Nat.eq_dec r (map fst m)) as [Hin|Hnin].
-  - apply count_occ_map_fst_NoDup; assumption.
+  destruct (in_dec Nat.eq_dec r (map fst (filter (fun e => snd e) m))) as [Hin|Hnin].
+  - apply count_occ_map_fst_NoDup; [apply nodup_map_fst_filter|]; assumption.
   - apply count_occ_not_In. assumption.
 Qed.
+
+(* the unrepaired loop handed out a routee that is not running *)
+Example available_unrepaired_hands_out_stopped :
+  In 1%nat (fst (available_unrepaired [(0%nat, true); (1%nat, false)])) /\
+  ~ In 1%nat (fst (available [(0%nat, true); (1%nat, false)])).
+Proof. split; [right; left; reflexivity|simpl; intros [H|[]]; discriminate]. Qed.
 
 (* ------------------------------------------------------------------ non-vacuity *)
 Example rt_example :
